@@ -3,5 +3,7 @@ CONSTANTS
   Sess = {"s1", "s2", "s3"}
   MaxN = 8
   MaxE = 8
+  DevAll = FALSE
+  CopyOnly = FALSE
 POSTCONDITION Accepted
 CHECK_DEADLOCK FALSE
